@@ -515,3 +515,29 @@ M("C20", "x64-five-chars-fm", U, '[A-Za-z0-9]{4}"', '[A-Za-z0-9]{4,5}"', "C20.R3
 M("C20", "x64-no-regex-unicode-alnum-fm", U, X64_RET_FM, '    return checksum8(uri) == 93 and len(uri) == 5 and uri.startswith("/") and uri[1:].isalnum()\n', "C20.R3")
 M("C20", "x64-digit-class-unicode-fm", U, '[A-Za-z0-9]{4}"', '[A-Za-z\\\\d]{4}"', "C20.R3")
 M("C20", "x64-dot-position-fm", U, '[A-Za-z0-9]{4}"', '[A-Za-z0-9]{3}."', "C20.R3")
+
+# ---- R5: a gate that does not call the classifiers but tests the checksum8 / the shape of the request URI itself (value
+# helper extracted into utils.py or pcap.py, lookup table, membership test): judged by the checksum8 values and the shape its
+# path conditions admit (interval sets over [0, 255], case analysis over the table's own keys, the x64 pattern's parse tree)
+ARCH_GATE = '        if response.request:\n            uri = response.request.uri.decode("ascii", errors="ignore")\n            arch = utils.stager_arch(uri)\n            if arch is None:\n                return None\n            logging.info("Found valid %s checksum8 request: %r", arch, response.request)\n'
+RSU_DEF = "def random_stager_uri("
+ARCH_EXACT = 'def stager_arch(uri):\n    if is_stager_x86(uri):\n        return "x86"\n    if is_stager_x64(uri):\n        return "x64"\n    return None\n\n\n'
+ARCH_CHAIN = 'def stager_arch(uri):\n    value = checksum8(uri)\n    if value == 92:\n        return "x86"\n    elif value == 93 and re.fullmatch("/[A-Za-z0-9]{4}", uri):\n        return "x64"\n    return None\n\n\n'
+ARCH_TABLE_SHAPE = (
+    '_ARCH_BY_CHECKSUM = {92: "x86", 93: "x64"}\n\n\ndef stager_arch(uri):\n    arch = _ARCH_BY_CHECKSUM.get(checksum8(uri))\n'
+    '    if arch == "x64" and not re.fullmatch("/[A-Za-z0-9]{4}", uri):\n        return None\n    return arch\n\n\n'
+)
+T("C20", "twin-gate-arch-helper-classifier-calls", P, "", "", edits=[(U, RSU_DEF, ARCH_EXACT + RSU_DEF), (P, GATE, ARCH_GATE)])
+T("C20", "twin-gate-arch-helper-if-chain-with-shape", P, "", "", edits=[(U, RSU_DEF, ARCH_CHAIN + RSU_DEF), (P, GATE, ARCH_GATE)])
+T("C20", "twin-gate-arch-helper-table-then-shape", P, "", "", edits=[(U, RSU_DEF, ARCH_TABLE_SHAPE + RSU_DEF), (P, GATE, ARCH_GATE)])
+T("C20", "twin-gate-x86-only-checksum", P, GATE, '        if response.request and utils.checksum8(response.request.uri.decode("ascii", errors="ignore")) != 92:\n            return None\n')
+T("C20", "twin-gate-arch-table-of-classifiers-undecided", P, "", "", edits=[
+    (U, RSU_DEF, '_STAGER_TESTS = {"x86": is_stager_x86, "x64": is_stager_x64}\n\n\ndef stager_arch(uri):\n    return next((arch for arch, test in _STAGER_TESTS.items() if test(uri)), None)\n\n\n' + RSU_DEF), (P, GATE, ARCH_GATE)])
+M("C20", "gate-arch-helper-if-chain-checksum-only", P, "", "", "C20.R5", edits=[(U, RSU_DEF, ARCH_CHAIN.replace(' and re.fullmatch("/[A-Za-z0-9]{4}", uri)', "") + RSU_DEF), (P, GATE, ARCH_GATE)])
+M("C20", "gate-checksum-membership-inline", P, GATE, '        if response.request and utils.checksum8(response.request.uri.decode("ascii", errors="ignore")) not in (92, 93):\n            return None\n', "C20.R5")
+M("C20", "gate-arch-table-in-pcap-truthiness", P, "", "", "C20.R5", edits=[
+    (P, "class BeaconCapture", '_STAGER_ARCH = {92: "x86", 93: "x64"}\n\n\nclass BeaconCapture'),
+    (P, GATE, '        if response.request:\n            uri = response.request.uri.decode("ascii", errors="ignore")\n            if not _STAGER_ARCH.get(utils.checksum8(uri), ""):\n                return None\n')])
+M("C20", "gate-arch-helper-table-shape-for-wrong-arch", P, "", "", "C20.R5", edits=[(U, RSU_DEF, ARCH_TABLE_SHAPE.replace('arch == "x64" and not', 'arch == "x86" and not') + RSU_DEF), (P, GATE, ARCH_GATE)])
+M("C20", "gate-arch-helper-table-extra-checksum", P, "", "", "C20.R5", edits=[(U, RSU_DEF, ARCH_TABLE_SHAPE.replace('93: "x64"}', '93: "x64", 94: "x64"}') + RSU_DEF), (P, GATE, ARCH_GATE)])
+M("C20", "gate-checksum-range-test", P, GATE, '        if response.request:\n            value = utils.checksum8(response.request.uri.decode("ascii", errors="ignore"))\n            if value < 92 or value > 93:\n                return None\n', "C20.R5")
